@@ -270,6 +270,8 @@ def mk_field(v, name, an=None):
             continue
         if t == 'ite':
             return mk_ite(v[1], tuple((val, mk_field(x, name, an)) for val, x in v[2]))
+        if t == 'never':
+            return v
         if t == 'var' and v in VAR_DEFS:
             k = (v, name)
             if k not in _FIELD_CACHE:
@@ -911,9 +913,12 @@ def peel_upd(v):
 
 
 def mk_ite(cond, cases):
-    # collapse when all branches agree
-    first = cases[0][1]
-    if all(e == first for _, e in cases):
+    # collapse when all reachable branches agree (an unreachable arm -- `never` -- agrees with anything)
+    live = [e for _, e in cases if e != ('never',)]
+    if not live:
+        return ('never',)
+    first = live[0]
+    if all(e == first for e in live):
         return first
     return ('ite', cond, cases)
 
